@@ -485,3 +485,54 @@ Example ex_empty_handoff :
   snd (run ex_cfg2 binit [EvMsg (ex_msg 1 20) false; EvMsg (ex_msg 2 30) false; EvResponse [(0, 0)] true; EvHandOff])
   = [Retried (ex_msg 2 30); Sent empty_set].
 Proof. vm_compute. reflexivity. Qed.
+
+(* ================================================================ the timer invariant, explicitly *)
+(* Over every event sequence — arrivals, timer, hand-offs, responses that drop any partitions from the buffer — a
+   non-empty buffer always has its flush timer armed when a frequency is configured (armed = bp.timer != nil: still
+   pending, or already fired with timerFired set). *)
+Theorem timer_armed : forall c evs, evs_wf evs ->
+  let s := fst (run c binit evs) in
+  is_empty (b_buf s) = false -> c_flush_frequency c > 0 ->
+  b_armed s = true /\ (b_fired s = true -> enabled s EvHandOff = true).
+Proof.
+  intros c evs Hev s He Hf.
+  destruct (run_inv c msg_wf (fun m H => H) evs binit (binit_inv c msg_wf) Hev) as [[Hset [Hpend [Hout Harm]]] _].
+  fold s in Hset, Hpend, Hout, Harm. split; [exact (Harm He Hf)|].
+  intro Hfired. simpl. destruct (b_pending s); [reflexivity|]. apply Hout. rewrite Hfired. reflexivity.
+Qed.
+
+Lemma evs_wf_app : forall a b, evs_wf a -> evs_wf b -> evs_wf (a ++ b).
+Proof. intros a b Ha Hb. apply Forall_app. split; assumption. Qed.
+
+(* The case of a response that takes partitions out of a waiting buffer (leader moved): whatever is left — possibly
+   below every count / byte trigger that held before — is still flushed: the hand-off is enabled, or the timer is
+   pending and its firing enables the hand-off. *)
+Theorem flush_after_drop : forall c evs drops rp, evs_wf evs -> c_flush_frequency c > 0 ->
+  let s := fst (run c binit (evs ++ [EvResponse drops rp])) in
+  is_empty (b_buf s) = false ->
+  enabled s EvHandOff = true \/
+  (enabled s EvTimer = true /\ enabled (fst (step c s EvTimer)) EvHandOff = true).
+Proof.
+  intros c evs drops rp Hev Hf s He.
+  assert (Hw : evs_wf (evs ++ [EvResponse drops rp])).
+  { apply evs_wf_app; [exact Hev | constructor; [exact I | constructor]]. }
+  exact (proj2 (flush_enabled c (evs ++ [EvResponse drops rp]) Hw He) Hf).
+Qed.
+
+(* the scenario: Flush.Bytes = 1000 and a 60 ms timer; a0 (2000 B, partition 0) goes out at once; behind it m1 (2000 B,
+   partition 0) makes the buffer ready by bytes and m2 (5 B, partition 1) joins; the response drops partition 0:
+   the 5 bytes left are below the trigger, the hand-off is not enabled, but the timer is pending and its firing enables it *)
+Definition ex_cfg3 : cfg :=
+  {| c_version := (0, 8, 2, 0); c_max_message_bytes := 100000; c_flush_messages := 0; c_flush_bytes := 1000;
+     c_flush_frequency := 60000000; c_max_messages := 0; c_max_request_size := 104857600 |}.
+Definition ex_msgp (id p v : Z) : msg :=
+  {| m_id := id; m_topic := 0; m_part := p; m_key := None; m_val := Some v; m_headers := []; m_has_headers := false; m_encfail := false |}.
+Example ex_drop_leaves_timer :
+  let evs := [EvMsg (ex_msgp 1 0 2000) false; EvHandOff; EvMsg (ex_msgp 2 0 2000) false; EvMsg (ex_msgp 3 1 5) false] in
+  let before := fst (run ex_cfg3 binit evs) in
+  let after := fst (run ex_cfg3 binit (evs ++ [EvResponse [(0, 0)] false])) in
+  ready_to_flush ex_cfg3 (b_buf before) = true /\
+  ready_to_flush ex_cfg3 (b_buf after) = false /\ is_empty (b_buf after) = false /\
+  enabled after EvHandOff = false /\ enabled after EvTimer = true /\
+  enabled (fst (step ex_cfg3 after EvTimer)) EvHandOff = true.
+Proof. vm_compute. repeat split; reflexivity. Qed.
